@@ -249,6 +249,39 @@ Proof.
   destruct X; [contradiction| |]; unfold expect10; cbn [lgroup]; rewrite Hg, Hi; reflexivity.
 Qed.
 
+(* the two named consequences, observation by observation *)
+Lemma all_expected10_nth : forall h s i e, all_expected10 s h = true -> nth_error h i = Some e ->
+  expected10 (exec s (firstn i h)) e (nth i (run s h) OOk) = true.
+Proof.
+  induction h as [|e0 r IH]; intros s i e A He; [destruct i; discriminate He|].
+  cbn [all_expected10] in A. apply andb_true_iff in A. destruct A as [A1 A2].
+  destruct i as [|i].
+  - cbn in He. inversion He; subst e0. cbn [firstn exec run]. destruct (step s e) as [s1 o]. exact A1.
+  - cbn [nth_error] in He. cbn [firstn exec run]. destruct (step s e0) as [s1 o] eqn:St. cbn [nth].
+    cbn [fst] in A2. apply IH; assumption.
+Qed.
+
+Theorem public_unaffected_partial : forall h i a n,
+  forallb ev_in10 h = true -> safe_run10 init_state h ->
+  nth_error h i = Some (Read Pub a n) -> nth i (run init_state h) OOk = OSame.
+Proof.
+  intros h i a n I S He. pose proof (isolation_partial h I S) as A.
+  pose proof (all_expected10_nth h init_state i _ A He) as X.
+  rewrite expected10_public_read in X. apply outcome_eqb_eq in X. exact X.
+Qed.
+
+Theorem fresh_private_equals_public_partial : forall h i X a n,
+  forallb ev_in10 h = true -> safe_run10 init_state h ->
+  nth_error h i = Some (Read X a n) -> X <> Pub -> N.eqb (group_of_name n) 0 = false ->
+  exists_tab (exec init_state (firstn i h)) X = true ->
+  inited (proj (group_of_name n) (exec init_state (firstn i h))) X (group_of_name n) = true ->
+  nth i (run init_state h) OOk = OSame.
+Proof.
+  intros h i X a n I S He NP Hg E Hi. pose proof (isolation_partial h I S) as A.
+  pose proof (all_expected10_nth h init_state i _ A He) as Q.
+  rewrite (expected10_private_read _ X a n _ E NP Hg Hi) in Q. apply outcome_eqb_eq in Q. exact Q.
+Qed.
+
 (* ------------------------------------------------------------------ one assignment / one in-place mutation *)
 Definition setmut_atoms : list atom := [E1; E0; I11; I01; XE1].
 Definition read_atoms : list atom := [E1; E0; I11; I01; XE1; XI11].
